@@ -39,8 +39,15 @@ def check(ctx):
                label='deviation switch PivotBy = "signed" (defect D2): DetOK must fail (diag(-1,1) stored with one sub-diagonal)')
     ctx.exhaustive_parts.append('every band matrix n <= 3 over {-1,0,1} (thorough: n = 4 with m1+m2 <= 2) through the transcribed compact LU')
     # spec -> impl
-    gen = ctx.tlc_cases('MC_Banded', 'Gen_Banded_quick.cfg' if q else 'Gen_Banded.cfg',
-                        transform=with_types(('rat', 'f64', 'rat', 'cx'), 'banded'), name='gen_banded')
+    wt = with_types(('rat', 'f64', 'rat', 'cx'), 'banded')
+
+    def tr(c, k):
+        out = wt(c, k)
+        if q and k % 3 != 0:          # quick: det / solve on every enumerated matrix, product / reads on every third
+            for d in out:
+                d['aux'] = False
+        return out
+    gen = ctx.tlc_cases('MC_Banded', 'Gen_Banded_quick.cfg' if q else 'Gen_Banded.cfg', transform=tr, name='gen_banded')
     ev = ctx.exec('banded', gen)
     ctx.validate('Trace_Banded', ev, gen, 'banded', nontrivial=NT)
     # impl -> spec: all 385 (n, m1, m2)
